@@ -177,7 +177,7 @@ pub fn gen_cases(rng: &mut Rng, w_target: u16, w_refused: u16, quick: bool) -> V
     let mut uniq = 0u32;
     let mut next_ip = |accept: bool| {
         uniq += 1;
-        (Ipv4Addr::new(127, 88, (uniq >> 8) as u8, (uniq as u8).clamp(1, 254)), if accept { w_target } else { w_refused })
+        (netkit::uniq_ip(88, uniq), if accept { w_target } else { w_refused })
     };
     let ok_greeting = vec![5u8, 1, 0];
     let mk_req = |cmd: u8, ver: u8, rsv: u8, dest: Vec<u8>| {
